@@ -49,13 +49,13 @@ type unit struct {
 }
 
 type scenario struct {
-	id    int
-	mode  string
-	start int64
-	units []unit
-	bytes []byte // whole stream from start
-	crash []int
-	idle  bool // restart twice without traffic after a crash
+	id      int
+	mode    string
+	start   int64
+	units   []unit
+	bytes   []byte // whole stream from start
+	crash   []int
+	idle    bool // restart twice without traffic after a crash
 	cluster bool
 	stall   int  // cluster: the transaction of this unit (0-based, 0 = none) is held back ~130 ms before the target sees its first command
 	nostart bool // skip the start-up recovery (16384 slot reads on a cluster): C18 cases only judge admission
@@ -66,6 +66,7 @@ type caseLine struct {
 	Unit []struct {
 		Kind string  `json:"kind"`
 		Keys [][]int `json:"keys"`
+		Arg  []int   `json:"arg"`
 	} `json:"unit"`
 	Ok bool `json:"ok"`
 }
@@ -107,6 +108,13 @@ func caseScenario(r *hx.Rng, id int, c caseLine) *scenario {
 		case cu.Kind == "opaque":
 			cm = cmd{"fooq", [][]byte{bytesOf(cu.Keys[0]), v}}
 			oracleOk = false
+		case cu.Kind == "counted":
+			// the key count is content; the argument after the keys is not a key although it looks like one
+			cm = cmd{"eval", [][]byte{[]byte(fmt.Sprintf("return %d", ci)), []byte(strconv.Itoa(len(cu.Keys)))}}
+			for _, k := range cu.Keys {
+				cm.args = append(cm.args, bytesOf(k))
+			}
+			cm.args = append(cm.args, bytesOf(cu.Arg))
 		case len(cu.Keys) == 1:
 			cm = cmd{"set", [][]byte{bytesOf(cu.Keys[0]), v}} // the keys of a unit may coincide: one value type throughout
 		default:
@@ -168,8 +176,13 @@ func keyForm(r *hx.Rng, t string, suffix string) []byte {
 	}
 }
 
+// the generated scripts do nothing: what is judged is where the command is sent
+func noopScript(s *fakeredis.Server, db int, script string, keys [][]byte, argv [][]byte) interface{} {
+	return 1
+}
+
 // refuse kinds of C18: what makes a unit unroutable on a cluster target
-var refuseKinds = []string{"txn2slots", "mset2slots", "del2slots", "emptytag", "lastbrace", "unknowncmd", "nestedbrace"}
+var refuseKinds = []string{"txn2slots", "mset2slots", "del2slots", "emptytag", "lastbrace", "unknowncmd", "nestedbrace", "eval2slots"}
 
 func genScenario(r *hx.Rng, id int, maxUnits int, cluster bool, refuse string) *scenario {
 	sc := &scenario{id: id, start: int64(500 + r.Intn(5000)), mode: []string{"sync", "pipeline", "parallel"}[r.Intn(3)], cluster: cluster}
@@ -210,7 +223,21 @@ func genScenario(r *hx.Rng, id int, maxUnits int, cluster bool, refuse string) *
 			}
 			val := append([]byte(fmt.Sprintf("v%d.%d:", u, c)), r.Bytes(r.Intn(8))...)
 			var cm cmd
-			switch r.Intn(5) {
+			switch r.Intn(7) {
+			case 5:
+				// a command whose key positions depend on its content: one key, and an argument that only looks like a
+				// key of another slot (the same shape and argument count as the two-key call below)
+				arg := val
+				if cluster && r.Bool() {
+					arg = []byte(fmt.Sprintf("{zz%d}arg", r.Intn(1000)))
+				}
+				cm = cmd{"eval", [][]byte{[]byte("return 1"), []byte("1"), key, arg}}
+			case 6:
+				k2 := []byte(fmt.Sprintf("k2:%d:%d", u, c))
+				if cluster {
+					k2 = keyForm(r, tag, fmt.Sprintf("b%d:%d", u, c))
+				}
+				cm = cmd{"eval", [][]byte{[]byte("return 1"), []byte("2"), key, k2}}
 			case 0:
 				cm = cmd{"set", [][]byte{key, val}}
 			case 1:
@@ -262,6 +289,9 @@ func genScenario(r *hx.Rng, id int, maxUnits int, cluster bool, refuse string) *
 			addCmd(&un, cmd{"mset", [][]byte{ka, v, kb, v}})
 		case "del2slots":
 			addCmd(&un, cmd{"del", [][]byte{ka, kb}})
+		case "eval2slots":
+			// the key count is part of the content: the same command name and argument count as a one-key call
+			addCmd(&un, cmd{"eval", [][]byte{[]byte("return 1"), []byte("2"), ka, kb}})
 		case "emptytag":
 			// "{}{a}x" hashes as a whole key, "{a}x" by its tag
 			un.Txn = true
@@ -675,6 +705,9 @@ func runScenario(sc *scenario, tr *hx.Trace) (recv int, reqs int) {
 				nd.Gate = gate
 			}
 		}
+		for _, nd := range cs.Nodes {
+			nd.Eval = noopScript
+		}
 		// the start-up recovery of a cluster target reads 16384 slots: only writes count as crash points
 		cs.GCount = func(name string) bool {
 			switch name {
@@ -695,6 +728,7 @@ func runScenario(sc *scenario, tr *hx.Trace) (recv int, reqs int) {
 		}
 	} else {
 		srv := fakeredis.New()
+		srv.Eval = noopScript
 		srv.KeepRaw = true
 		srv.RealClock = true
 		if _, err := srv.Start(); err != nil {
